@@ -69,7 +69,13 @@ fn programs(fair: bool) -> Vec<Program> {
     // TTL removal + re-put vs. sweep
     v.push(mk("upsert(a,rm-ttl);delete(a);put_ttl(a)||{clock;tick}", 100, vec![put_ttl(1, 30, 1000)], vec![vec![ups(1, Some(30), None, true), del(1), put_ttl(1, 30, 2000)], vec![adv(3000), Op::Tick]]));
     // multi-key readers through iterators vs. writers on the same shard
+    // (appended: the indices above are referred to by the quick tier's selection)
     v.push(mk("multi_get_iterator([a,b])||delete(a);put(a)||upsert(b)", 100, vec![put(1, 30), put(2, 30)], vec![vec![Op::MultiRead { keys: vec![1, 2], variant: ReadVariant::MultiGetIterator }], vec![del(1), put(1, 30)], vec![ups(2, None, None, false)]]));
+    // the worker's weight update / delete (key-weight shard, then the total) vs. the sweeper's release of another key
+    v.push(mk("upsert(a,w)||{tick} sweeping b", 100, vec![put(1, 2), put_ttl(2, 2, 1000), adv(3000)], vec![vec![ups(1, Some(3), None, false)], vec![Op::Tick]]));
+    // callers that really poll their acknowledgements while the worker completes them (status / waker locks)
+    v.push(mk("put(c);await||delete(a);await", 100, vec![put(1, 2)], vec![vec![put(3, 2), Op::Await { call: 0 }], vec![del(1), Op::Await { call: 0 }]]));
+    v.push(mk("delete(a)||upsert(b,w)||{tick} sweeping c", 100, vec![put(1, 2), put(2, 2), put_ttl(3, 2, 1000), adv(3000)], vec![vec![del(1)], vec![ups(2, Some(3), None, false)], vec![Op::Tick]]));
     v
 }
 
